@@ -173,7 +173,15 @@ type CertCase struct {
 	ExtOrder int
 }
 
+// oid is the extension's object identifier: 1.3.6.1.4.1.41482.3.<Arc>[.<Sub>...]
+func (v VendorExt) oid() asn1.ObjectIdentifier {
+	o := asn1.ObjectIdentifier{1, 3, 6, 1, 4, 1, 41482, 3, v.Arc}
+	return append(o, v.Sub...)
+}
+
 type VendorExt struct {
+	// Sub: further arcs below Arc (an OID that merely starts like the serial-number OID is another extension)
+	Sub      []int `json:",omitempty"`
 	Arc      int
 	Critical bool
 	Value    []byte
@@ -299,6 +307,10 @@ func genCert(t *rapid.T) CertCase {
 		}
 		used[arc] = true
 		v := VendorExt{Arc: arc, Critical: rapid.IntRange(0, 4).Draw(t, fmt.Sprintf("vcrit%d", i)) == 0}
+		if rapid.IntRange(0, 4).Draw(t, fmt.Sprintf("vsub%d", i)) == 2 {
+			v.Sub = rapid.SampledFrom([][]int{{1}, {0}, {7}, {1, 2}}).Draw(t, fmt.Sprintf("vsubArcs%d", i))
+			used[arc] = false // a child OID is another extension: the exact OID may still follow
+		}
 		if arc == 7 && rapid.IntRange(0, 3).Draw(t, fmt.Sprintf("vgood%d", i)) > 0 {
 			n := rapid.IntRange(3, 4).Draw(t, fmt.Sprintf("vlen%d", i))
 			body := rapid.SliceOfN(rapid.Byte(), n, n).Draw(t, fmt.Sprintf("vser%d", i))
@@ -374,7 +386,7 @@ func (c CertCase) der() ([]byte, error) {
 		tpl.PolicyIdentifiers = append(tpl.PolicyIdentifiers, asn1.ObjectIdentifier(o))
 	}
 	for _, v := range c.Vendor {
-		tpl.ExtraExtensions = append(tpl.ExtraExtensions, pkix.Extension{Id: asn1.ObjectIdentifier{1, 3, 6, 1, 4, 1, 41482, 3, v.Arc}, Critical: v.Critical, Value: v.Value})
+		tpl.ExtraExtensions = append(tpl.ExtraExtensions, pkix.Extension{Id: v.oid(), Critical: v.Critical, Value: v.Value})
 	}
 	parent, signer := tpl, c.SubjectKey
 	if c.SignerKey != "" {
@@ -788,14 +800,18 @@ type ModHexCase struct {
 
 func TestC16ModHex(t *testing.T) {
 	vh.Run(t, vh.Spec[ModHexCase]{Property: "C16", Name: "TestC16ModHex",
-		Rule: "certificate values carrying 0..3 vendor extensions, the serial extension (1.3.6.1.4.1.41482.3.7) with values of every length 0..8 and arbitrary bytes, possibly twice. Oracle: 3- or 4-byte serial (value length 5 or 6) => 8 ModHex characters spelling the 32-bit big-endian number (hence injective); every other length or no extension => error; never a crash. Non-trivial: a serial extension is present.",
+		Rule: "certificate values carrying 0..3 vendor extensions, the serial extension (1.3.6.1.4.1.41482.3.7) with values of every length 0..8 and arbitrary bytes, possibly twice, beside extensions whose OID only resembles it (arcs 70 / 71 / 17, child OIDs such as ...3.7.1). Oracle: 3- or 4-byte serial (value length 5 or 6) => 8 ModHex characters spelling the 32-bit big-endian number (hence injective); every other length or no extension => error; never a crash. Non-trivial: a serial extension is present.",
 		Gen: func(t *rapid.T) ModHexCase {
 			c := ModHexCase{}
 			n := rapid.IntRange(0, 3).Draw(t, "n")
 			for i := 0; i < n; i++ {
 				l := rapid.IntRange(0, 8).Draw(t, fmt.Sprintf("len%d", i))
-				c.Exts = append(c.Exts, VendorExt{Arc: rapid.SampledFrom([]int{7, 7, 7, 3, 8}).Draw(t, fmt.Sprintf("arc%d", i)),
-					Value: rapid.SliceOfN(rapid.Byte(), l, l).Draw(t, fmt.Sprintf("val%d", i))})
+				e := VendorExt{Arc: rapid.SampledFrom([]int{7, 7, 7, 3, 8, 70, 71, 17}).Draw(t, fmt.Sprintf("arc%d", i)),
+					Value: rapid.SliceOfN(rapid.Byte(), l, l).Draw(t, fmt.Sprintf("val%d", i))}
+				if rapid.IntRange(0, 3).Draw(t, fmt.Sprintf("sub%d", i)) == 2 {
+					e.Sub = rapid.SampledFrom([][]int{{1}, {0}, {7}, {1, 2}, {41482}}).Draw(t, fmt.Sprintf("subArcs%d", i))
+				}
+				c.Exts = append(c.Exts, e)
 			}
 			return c
 		},
@@ -803,8 +819,8 @@ func TestC16ModHex(t *testing.T) {
 			cert := &x509.Certificate{}
 			has := false
 			for _, e := range c.Exts {
-				cert.Extensions = append(cert.Extensions, pkix.Extension{Id: asn1.ObjectIdentifier{1, 3, 6, 1, 4, 1, 41482, 3, e.Arc}, Value: e.Value})
-				has = has || e.Arc == 7
+				cert.Extensions = append(cert.Extensions, pkix.Extension{Id: e.oid(), Value: e.Value})
+				has = has || (e.Arc == 7 && len(e.Sub) == 0)
 			}
 			return vh.Outcome{NonTrivial: has, Classes: []string{fmt.Sprintf("n=%d", len(c.Exts))}}, checkModHex(cert)
 		}})
